@@ -29,6 +29,7 @@ CONSTANTS
   CallKinds <- Calls_all
   MaxCalls = 3
   Laws = {"mass"}
+  TSources = {"param"}
 INVARIANT RegistryIndependent
 INVARIANT WrittenIsPhysical
 INVARIANT RefusedOnlyIfWrongDimension
